@@ -58,3 +58,18 @@ def tooth_window(n, C, u0, tau, last_pos):
     lo = exact_indices(n, C, u0 - tau, last_pos)  # not clamped: a breakpoint just below 0 is a float tie at u0=0
     hi = exact_indices(n, C, u0 + tau, last_pos)
     return lo, hi
+
+
+def wide_cells(n, w):
+    """Cells of the exact u0-partition for resampling n from weights w that are wider than the
+    float tie window; returns (cells[(a, b, mid)], C, last_pos, tau)."""
+    w = np.asarray(w, dtype=float)
+    m = len(w)
+    wt, _ = used_weights(w)
+    C = cums(wt)
+    tau = F(n * (m + 4), 2 ** 52)
+    last_pos = max(i for i in range(m) if wt[i] > 0)
+    bps = breakpoints(n, C)
+    edges = [F(0)] + bps + [F(1)]
+    cells = [(a, b, float((a + b) / 2)) for a, b in zip(edges[:-1], edges[1:]) if (b - a) > 6 * tau]
+    return cells, C, last_pos, tau
